@@ -7,7 +7,7 @@ from lib.common import model_run, src_hashes
 
 PID = "C04"
 RULE = ("search: generated documents of nested blocks (block quotes, bullet/ordered lists, backtick and colon directives "
-        "note/tip/warning/admonition with no/colon/dash option block, blank lines before/after the body, plain ::: divs, "
+        "note/tip/warning/admonition with no/colon/dash option block, 0-3 blank lines before and 0-2 after the body, plain ::: divs, "
         "{include} of generated files with start-line/start-after/end-before, nesting depth <= 5) in which every leaf "
         "(paragraph, heading, fenced/indented code, target, unknown role, unknown directive, unknown option) carries a unique "
         "marker; oracle: node.line == 1-based line of the construct in its file and node.source == that file, for "
@@ -104,7 +104,7 @@ class Gen:
             items = [self.seq(depth + 1, r.randint(1, 2), first_in="item") for _ in range(r.randint(1, 3))]
             return B(k, self.mk(), items, tight=r.random() < 0.5)
         if k == "div":
-            return B("div", self.mk(), self.seq(depth + 1, r.randint(1, 2)), blank_before=r.randint(0, 1), blank_after=r.randint(0, 1))
+            return B("div", self.mk(), self.seq(depth + 1, r.randint(1, 2)), blank_before=r.choice([0, 0, 1, 1, 2, 3]), blank_after=r.choice([0, 0, 1, 2]))
         if k == "include":
             return self.include(depth)
         name = r.choice(["note", "note", "tip", "warning", "admonition"])
@@ -112,7 +112,7 @@ class Gen:
         style = r.choice(["none", "none", "colon", "dash"])
         nopts = r.randint(1, 2) if style != "none" else 0
         kids = self.seq(depth + 1, r.randint(1, 3))
-        bb = r.randint(0, 1)
+        bb = r.choice([0, 0, 1, 1, 2, 3])
         # a ':::' fence directly after the opening line or after ':key:' options would be read as an option line
         # (the renderer only handles it for a colon directive without options, by its prepended-line trick)
         if not bb and kids[0].kind in ("div", "dir") and kids[0].p.get("fence", ":") == ":":
@@ -123,7 +123,7 @@ class Gen:
                  firstline=False)
         if name != "admonition" and r.random() < 0.12:
             # text on the first line is the first body line: keep it a paragraph of its own
-            blk.p["firstline"], blk.p["blank_before"] = True, 1
+            blk.p["firstline"], blk.p["blank_before"] = True, max(1, bb)
         return blk
 
     def seq(self, depth, n, first_in=None):
@@ -524,6 +524,14 @@ def fixed_cases():
     # the C08 root cause: option block + trailing blank line
     out.append({"doc": [d(1, [para(2)], style="colon", nopts=1, blank_after=1)], "files": {}})
     out.append({"doc": [d(1, [para(2)], style="dash", nopts=1, blank_after=2)], "files": {}})
+    # several blank lines between the opening line / option block and the body: one is stripped, the others stay
+    for style in ("none", "colon", "dash"):
+        for k in (2, 3):
+            out.append({"doc": [d(1, [para(2), d(3, [para(4)], fence=":", name="tip", blank_before=k)], style=style,
+                                  nopts=(1 if style != "none" else 0), blank_before=k, blank_after=1)], "files": {}})
+    # a tight list inside a directive body (its paragraphs come from hidden tokens)
+    out.append({"doc": [para(1), d(2, [{"kind": "blist", "mk": 3, "p": {"tight": True},
+                                        "ch": [[para(4)], [para(5)], [para(6)]]}], blank_before=1)], "files": {}})
     # nested colon fence first in a colon fence
     out.append({"doc": [d(1, [d(2, [para(3)], fence=":", name="tip")], fence=":")], "files": {}})
     # first line is body text
@@ -559,11 +567,11 @@ def gen_model_tree(rng, depth, counter, first_in=None):
         return (k, m, [gen_model_tree(rng, depth - 1, counter) for _ in range(n)])
     if k == "V":
         n = rng.randint(0, 2)
-        return ("V", m, rng.randint(0, 1), rng.choice([0, 0, 1, 2]),
+        return ("V", m, rng.choice([0, 0, 1, 1, 2, 3]), rng.choice([0, 0, 1, 2]),
                 [gen_model_tree(rng, depth - 1, counter) for _ in range(n)])
     fk = rng.choice("bc")
     os_ = rng.choice("nncd")
-    bb = rng.randint(0, 1)
+    bb = rng.choice([0, 0, 1, 1, 2, 3])
     n = rng.randint(0, 3)
     bs = [gen_model_tree(rng, depth - 1, counter) for _ in range(n)]
     if bs and not bb and colon_start(bs[0]):
